@@ -19,6 +19,18 @@ the three-way result is exactly what the code computes. -/
 def natCmp (a b : Nat) : Ordering := compare a b
 def strCmp (a b : String) : Ordering := compare a b
 
+/-- ObjectId numbers below `oidFresh` are ids the case supplies: their value is the number
+    (harness/wire.py `Oids.make`), so they are ordered like their numbers.  From `oidFresh` on
+    they are ids the library generated (`Store.nextOid`; `uuid.uuid1()` in mongomock/object_id.py),
+    whose value — hence order — the model does not know. -/
+def oidFresh : Nat := 1000
+
+/-- `ObjectId.__lt__` & co. (mongomock/object_id.py): the order of the underlying values -/
+def oidCmp (a b : Nat) : R Ordering :=
+  if a < oidFresh && b < oidFresh then .ok (compare a b)
+  else if a = b then .ok .eq
+  else unmodelled
+
 /-- Python's native `<`-family on two values of one comparison class (the final `op(a, b)`) -/
 def leafCmp : Val → Val → R Ordering
   | .null, .null => .ok .eq
@@ -27,7 +39,7 @@ def leafCmp : Val → Val → R Ordering
   | .date u none, .date u' none => .ok (compare u u')
   | .date u (some o), .date u' (some o') => .ok (compare (dateUtc u (some o)) (dateUtc u' (some o')))
   | .date _ _, .date _ _ => .error .typeErr           -- naive against aware
-  | .oid _, .oid _ => .error .typeErr                 -- mongomock.ObjectId defines no ordering
+  | .oid a, .oid b => oidCmp a b
   | a, b =>
     match a.num?, b.num? with
     | some x, some y => .ok (if Num.lt x y then .lt else if Num.eq x y then .eq else .gt)
